@@ -47,7 +47,7 @@ func vpChars(label, set string, max int) string {
 
 // VPH_C14_tags: a service with an arbitrary additional tag (quotes, backslashes, commas, white space).
 func VPH_C14_tags() {
-	other := vpChars("othertag", "a-z \"\\,=\t\n", vp.Param("LEN"))
+	other := vpChars("othertag", "a-z \"\\,=\t\n#/", vp.Param("LEN"))
 	host := "foo.com"
 	if vp.Bool("upper-case-host") {
 		host = "Foo.COM"
@@ -162,6 +162,79 @@ func VPH_C14_alongside() {
 	}
 	vp.Assert(found, "well-formed-service-routed")
 	vp.Assert(len(defs) <= 2, "no-extra-commands")
+}
+
+// vpPick forks over 0..n-1 so that the result is a concrete index on every path.
+func vpPick(label string, n int) int {
+	c := vp.Choice(label, n)
+	for i := 0; i < n-1; i++ {
+		if c == i {
+			return i
+		}
+	}
+	return n - 1
+}
+
+// VPH_C14_prefix: an arbitrary host/path text in the routing tag.
+func VPH_C14_prefix() {
+	hp := vpChars("hostpath", "a-zA-Z./: \t\"", vp.Param("LEN"))
+	svc := &api.CatalogService{ServiceName: "svc", ServiceAddress: "1.2.3.4", ServicePort: 8080, ServiceTags: []string{"urlprefix-" + hp}}
+	cmds := routecmd{svc: svc, prefix: "urlprefix-"}.build()
+	vp.Assert(len(cmds) <= 1, "at-most-one-command-per-routing-tag")
+	// reference: the prefix a registration denotes
+	s := strings.TrimSpace(hp)
+	opts := ""
+	if i := strings.Index(s, " "); i >= 0 {
+		s, opts = s[:i], s[i+1:]
+	}
+	want := s
+	if !strings.HasPrefix(s, ":") {
+		if i := strings.Index(s, "/"); i >= 0 {
+			want = strings.ToLower(s[:i]) + "/" + s[i+1:]
+		}
+	}
+	vpCheckCmds(cmds, "svc", want, "1.2.3.4:8080")
+	if want != "" && !strings.ContainsAny(s, "\t") && !strings.ContainsAny(opts, "\"") {
+		vp.Assert(len(cmds) == 1, "expressible-registration-kept")
+	}
+	if len(cmds) == 1 {
+		vp.Cover("prefix-accepted")
+	}
+}
+
+// VPH_C14_proto: protocol options and addresses (IPv4, IPv6, host names) with boundary ports.
+func VPH_C14_proto() {
+	protos := []string{"", "proto=tcp", "proto=https", "proto=grpc", "proto=grpcs", "proto=http"}
+	schemes := []string{"http", "tcp", "https", "grpc", "grpcs", "http"}
+	addrs := []string{"1.2.3.4", "::1", "fe80::1%eth0", "backend.local"}
+	ports := []int{0, 80, 65535}
+	pi, ai, qi := vpPick("proto", len(protos)), vpPick("addr", len(addrs)), vpPick("port", len(ports))
+	proto, scheme, addr, port := protos[pi], schemes[pi], addrs[ai], ports[qi]
+	extra := vpChars("extra", "a-z= ", vp.Param("LEN"))
+	svc := &api.CatalogService{ServiceName: "svc", ServiceAddress: addr, ServicePort: port, ServiceTags: []string{"urlprefix-:" + strconv.Itoa(port) + " " + proto + " " + extra}}
+	cmds := routecmd{svc: svc, prefix: "urlprefix-"}.build()
+	vp.Assert(len(cmds) == 1, "expressible-registration-kept")
+	if len(cmds) != 1 {
+		return
+	}
+	defs, err := route.Parse(bytes.NewBufferString(cmds[0]))
+	vp.Assert(err == nil && len(defs) == 1, "generated-command-accepted-by-parser")
+	if err != nil || len(defs) != 1 {
+		return
+	}
+	vp.Cover("proto-accepted")
+	d := defs[0]
+	hostport := net.JoinHostPort(addr, strconv.Itoa(port))
+	if strings.HasPrefix(extra, "proto=") || strings.Contains(extra, " proto=") {
+		// a second proto option may override the first
+		return
+	}
+	if scheme == "http" && proto != "proto=http" {
+		vp.Assert(d.Dst == "http://"+hostport+"/", "denotes-the-destination")
+	} else if proto != "proto=http" {
+		vp.Assert(d.Dst == scheme+"://"+hostport, "denotes-the-protocol")
+	}
+	vp.Assert(d.Src == ":"+strconv.Itoa(port) && d.Service == "svc", "denotes-the-prefix")
 }
 
 func vpItoa(n int) string {
